@@ -258,6 +258,9 @@ func init() {
 		if err != nil {
 			return "sent-but-error"
 		}
+		// what Proxy.sendToBackend does after a successful dispatch (it logs the pool's name and its members)
+		vRR.GetAddress()
+		vRR.GetAllBackend()
 		return "to " + strings.Fields(vRRSink[before])[0]
 	})
 	vReg("rr state", func(a []string) string { return rrState() })
